@@ -196,10 +196,16 @@ pub trait BindMap: Default + Clone {
     /// Retain only the bindings for the given keys.
     fn retain_keys(&mut self, keys: &HashSet<Self::Key>) {
         let mut new_self = Self::default();
-        for &key in keys {
-            if let Some(val) = self.get(&key) {
-                new_self.bind(key, val.borrow().clone()).unwrap();
-            }
+        let mut pending: Vec<_> = keys
+            .iter()
+            .filter_map(|&key| Some((key, self.get(&key)?.borrow().clone())))
+            .collect();
+        // The iteration order of `keys` is arbitrary: a key that cannot be
+        // bound yet (its prerequisites come later) is retried after the others.
+        while !pending.is_empty() {
+            let n_pending = pending.len();
+            pending.retain(|(key, val)| new_self.bind(*key, val.clone()).is_err());
+            assert!(pending.len() < n_pending, "cannot re-bind retained keys");
         }
         *self = new_self;
     }
